@@ -256,6 +256,31 @@ def eval_case(c):
         if not np.array_equal(out2.view(np.float64), scm.view(np.float64)):
             j = int(np.argmax(out2 != scm))
             V('vectorize-modulus-viscosity-differs-from-scalar', f'{model}: vectorize_modulus_viscosity[{j}] = {out2[j]!r} but scalar call gives {scm[j]!r}', model=model, w=w0)
+        # non-contiguous views: either refused with an exception or evaluated element for element like the scalar call
+        big = np.empty(2 * NB)
+        big[::2] = ws
+        big[1::2] = ws[::-1] * 3.7
+        strided = big[::2]
+        out4 = np.empty(NB, dtype=np.complex128)
+        try:
+            m.vectorize_frequency(strided, mu0, eta0, out4)
+            cnt['path_comparisons'] += NB
+            if not np.array_equal(out4.view(np.float64), sc.view(np.float64)):
+                j = int(np.argmax(out4 != sc))
+                V('strided-input-read-wrongly', f'{model}: vectorize_frequency on a non-contiguous view gives {out4[j]!r} at element {j} but the scalar call gives {sc[j]!r} (w={ws[j]!r})', model=model)
+        except (ValueError, TypeError, BufferError):
+            pass
+        bigm, bige = np.empty(2 * NB), np.empty(2 * NB)
+        bigm[::2], bigm[1::2], bige[::2], bige[1::2] = mus, mus[::-1] * 1.9, etas, etas[::-1] * 0.3
+        out5 = np.empty(NB, dtype=np.complex128)
+        try:
+            m.vectorize_modulus_viscosity(w0, bigm[::2], bige[::2], out5)
+            cnt['path_comparisons'] += NB
+            if not np.array_equal(out5.view(np.float64), scm.view(np.float64)):
+                j = int(np.argmax(out5 != scm))
+                V('strided-input-read-wrongly', f'{model}: vectorize_modulus_viscosity on non-contiguous views gives {out5[j]!r} at element {j} but the scalar call gives {scm[j]!r}', model=model)
+        except (ValueError, TypeError, BufferError):
+            pass
         # mismatched lengths must raise
         for bad in ((ws, np.empty(NB - 1, dtype=np.complex128)),):
             try:
